@@ -30,25 +30,31 @@ type checker struct {
 	nViolP  int
 	nKnown  int
 	seen    int
+	hint    int // the length-hint policy the next event stream is played under (events.go hintFor)
 }
 
 // shards: a Coq cases file that rolls over into cases_x_2.v, cases_x_3.v, ... (one coqc each, run in
 // parallel by the driver) so that no single file holds more than maxCasesPerFile cases
+// nor more than maxBytesPerFile of terms (coqc reads about 30 kB of literal terms per second)
 const maxCasesPerFile = 1500
+const maxBytesPerFile = 600000
 
 type shards struct {
 	name  string
 	typ   string
 	obl   map[string]string
 	files []*lib.CasesFile
+	bytes int // of the last file
 }
 
-var caseImports = []string{"Model.Base", "Model.Json", "Model.Pb", "Corr.CorrC11"}
+var caseImports = []string{"Model.Base", "Model.Json", "Model.Pb", "Model.PbMem", "Corr.CorrC11"}
 
 func (s *shards) Add(term string, input interface{}) {
-	if len(s.files) == 0 || len(s.files[len(s.files)-1].Cases) >= maxCasesPerFile {
+	if len(s.files) == 0 || len(s.files[len(s.files)-1].Cases) >= maxCasesPerFile || s.bytes+len(term) > maxBytesPerFile {
 		s.files = append(s.files, &lib.CasesFile{Imports: caseImports, Typ: s.typ, Obligations: s.obl})
+		s.bytes = 0
 	}
+	s.bytes += len(term)
 	s.files[len(s.files)-1].Add(term, input)
 }
 
@@ -116,9 +122,9 @@ type jsonRun struct {
 }
 
 // jsonProperty evaluates the property as stated on one event tree
-func jsonProperty(e *Ev) *jsonRun {
+func jsonProperty(e *Ev, hint int) *jsonRun {
 	r := &jsonRun{}
-	r.out, r.wOutcome, r.wDetail = runWriter(e)
+	r.out, r.wOutcome, r.wDetail = runWriter(e, hint)
 	wf := jsonWf(e)
 	if r.wOutcome != "" {
 		// a JSON text cannot carry NaN/Inf: reporting an error is the only correct answer there
@@ -194,9 +200,10 @@ func jsonNontrivial(e *Ev) bool {
 }
 
 func (c *checker) jsonEvent(e *Ev, family string, toCoq bool) {
-	r := jsonProperty(e)
+	r := jsonProperty(e, c.hint)
 	c.res.Evaluations++
 	c.res.Count("json." + family)
+	c.shape(e)
 	if jsonNontrivial(e) {
 		c.res.Nontrivial("J" + e.String())
 		c.res.Count("json.nontrivial")
@@ -209,10 +216,10 @@ func (c *checker) jsonEvent(e *Ev, family string, toCoq bool) {
 	if r.readRun {
 		c.say("  read back   : %s (outcome %q %s)", evsText(r.evs), r.rOutcome, r.rDetl)
 	}
-	input := map[string]interface{}{"kind": "json-events", "ev": e}
+	input := map[string]interface{}{"kind": "json-events", "ev": e, "hint": c.hint}
 	if r.clause != "" {
 		var tags []string
-		if r.clause == "json-events-roundtrip" && e.has(prefFirstKey) && jsonProperty(neutralisePref(e)).clause == "" {
+		if r.clause == "json-events-roundtrip" && e.has(prefFirstKey) && jsonProperty(neutralisePref(e), c.hint).clause == "" {
 			// the only thing wrong with this input is a user hash whose first key is the reserved `__pref`
 			tags = append(tags, "pref-first-key")
 		}
@@ -330,7 +337,9 @@ func allStringsValid(e *Ev) bool {
 func (c *checker) pbEvent(e *Ev, family string, toCoq bool) {
 	c.res.Evaluations++
 	c.res.Count("pb." + family)
-	input := map[string]interface{}{"kind": "pb-events", "ev": e}
+	c.res.Count("pb.hint-" + hintNames[c.hint])
+	c.shape(e)
+	input := map[string]interface{}{"kind": "pb-events", "ev": e, "hint": c.hint}
 	fail := func(clause, what string) {
 		c.say("  FAILS %s: %s", clause, what)
 		c.res.Violate(lib.Violation{Clause: clause, What: what, Input: input})
@@ -340,8 +349,8 @@ func (c *checker) pbEvent(e *Ev, family string, toCoq bool) {
 		}
 	}
 	wf := evenHashes(e)
-	d, po, pd := runProtoConsumer(e)
-	c.say("PB events     : %s", e.String())
+	d, po, pd := runProtoConsumer(e, c.hint)
+	c.say("PB events     : %s (length hints: %s)", e.String(), hintNames[c.hint])
 	c.say("  message     : %s (outcome %q %s)", gPb(d), po, pd)
 	consumed := "(@None (res (list ev)))"
 	if po != "" {
@@ -364,11 +373,38 @@ func (c *checker) pbEvent(e *Ev, family string, toCoq bool) {
 					short(e.String()), short(gPb(d2)), wd))
 			}
 		}
+		if wf && co == "" && collectable(e) {
+			// decoding the message into a collector rebuilds the value the stream denotes
+			if want, ok := resolveRefs(pbImage(e)); ok {
+				var back *Ev
+				bo, bd := guarded(func() {
+					coll := types.NewCollector()
+					pcproto.ConsumePBData(d, coll)
+					back = fromPx(coll.Value())
+				})
+				if bo != "" || !evEq(back, want) {
+					fail("pb-stream-roundtrip", fmt.Sprintf("events %s become the message %s which a collector rebuilds as %v %s",
+						short(e.String()), short(gPb(d)), back, bd))
+				}
+			}
+		}
+		if wf && isDataTree(e) {
+			// a stream that is a Data value: FromPBData of the message is that value
+			back, fo, fd := runFromPB(d)
+			var bt *Ev
+			if fo == "" {
+				bt = fromPx(back)
+			}
+			if fo != "" || !evEq(bt, e) {
+				fail("pb-stream-roundtrip", fmt.Sprintf("the calls of the Data value %s become the message %s and FromPBData of it is %v %s",
+					short(e.String()), short(gPb(d)), bt, fd))
+			}
+		}
 	}
 	// the collector that turns events back into a value: every AddRef(n) must become the value at position n
 	coll := "(@None (res value))"
 	if wf && collectable(e) {
-		v, vo, _ := runCollector(e)
+		v, vo, _ := runCollector(e, c.hint)
 		cyclic := v != nil && v.has(func(x *Ev) bool { return x.T == "toodeep" })
 		if vo == "" && v != nil && !cyclic && isValueTree(v) {
 			coll = "(Some (Ok " + v.gValue() + "))"
@@ -551,6 +587,31 @@ func (c *checker) dataValueQuiet(e *Ev, shared bool, o serOpts) []lib.Violation 
 	tmp := &checker{cfg: c.cfg, res: lib.NewResult("C11")}
 	tmp.dataValue(e, shared, o, "quiet")
 	return tmp.res.Violations
+}
+
+// shape records where the input lies relative to the capacities the code preallocates (protoConsumer.stack and
+// BasicCollector.stack: 8 frames, BasicCollector.values: 64 positions, JsonToData's length hint: 8)
+func (c *checker) shape(e *Ev) {
+	d, w, n := e.depth(), e.width(), e.size()
+	switch {
+	case d >= 16:
+		c.res.Count("shape.depth>=16")
+	case d >= 8:
+		c.res.Count("shape.depth 8..15")
+	case d >= 5:
+		c.res.Count("shape.depth 5..7")
+	}
+	switch {
+	case w > 64:
+		c.res.Count("shape.width>64")
+	case w > 16:
+		c.res.Count("shape.width 17..64")
+	case w > 8:
+		c.res.Count("shape.width 9..16")
+	}
+	if n > 64 {
+		c.res.Count("shape.positions>64")
+	}
 }
 
 // collectable: no back-reference to a container that is still open (the collector would build a cyclic
